@@ -43,7 +43,7 @@ func (c14) Describe() CheckInfo {
 		},
 		RealCode:       []string{"gopatch main()/mainCmd.Run, patchRunner, patch.Parse/File.Apply, internal/engine (compiled program, dotAssoc maps), go/token.FileSet shared across files and calls"},
 		Stubs:          []string{"package os", "path/filepath walk", "io/ioutil", "choice of which caller goroutine runs next (simrt scheduler)"},
-		RequiredProbes: []string{"cli-grouped-vs-solo", "cli-permutation", "cli-unparseable-neighbour", "cli-repeat-identical", "hist-call", "hist-failing-call", "hist-result-held", "sched-run", "sched-overlap", "sched-preempt-sweep", "sched-concurrent-parse", "sched-pct", "sched-two-switch-site-uniform", "race-log-checked", "sched-same-filename", "cli-respelled-duplicate", "cli-module-root-in-tree"},
+		RequiredProbes: []string{"cli-grouped-vs-solo", "cli-permutation", "cli-unparseable-neighbour", "cli-repeat-identical", "hist-call", "hist-failing-call", "hist-result-held", "sched-run", "sched-overlap", "sched-preempt-sweep", "sched-concurrent-parse", "sched-pct", "sched-two-switch-site-uniform", "race-log-checked", "sched-same-filename", "cli-respelled-duplicate", "cli-module-root-in-tree", "cli-two-packages-in-one-directory"},
 	}
 }
 
@@ -206,6 +206,17 @@ func c14GenCLI(r *world.PRNG, seed uint64, i int) *Case {
 			} else {
 				c.AddFile(fmt.Sprintf("%snm%d.go", dir, j), NonMatchingFile(r, "canonical", ""), "nomatch", nil, "")
 			}
+		}
+	}
+	for _, ch := range all {
+		if ch.T.Name == "package-guarded" {
+			// one directory, two package names: the foreign one sorts first and must
+			// not decide anything about its neighbour
+			foreign := GenValidGoFile(r, GoFileOpts{Pkg: "sample_test", Funcs: 1, Stmts: []string{ch.T.Stmt(r, ch.K)}})
+			c.AddFile("mixed/a_example_test.go", foreign, "nomatch", nil, "foreign-package")
+			c.AddFile("mixed/lib.go", GenValidGoFile(r, GoFileOpts{Funcs: 1, Stmts: []string{ch.T.Stmt(r, ch.K)}}), "match", nil, "guarded")
+			c.Extra["mixed_packages"] = "1"
+			break
 		}
 	}
 	if r.Chance(1, 4) {
@@ -394,6 +405,9 @@ func c14EvalCLI(env *Env, c *Case) []Violation {
 	}
 	if c.Extra["module"] == "1" {
 		env.Probe("cli-module-root-in-tree")
+	}
+	if c.Extra["mixed_packages"] == "1" {
+		env.Probe("cli-two-packages-in-one-directory")
 	}
 	var wantPrint bytes.Buffer
 	anyFail := false
